@@ -130,6 +130,9 @@ def check_equilibria(run, ex, jnp, rng, tier):
                   ("AllenCahn", D, N, {}, [[0.0], [1.0], [-1.0]]),
                   ("GrayScott", D, N, {}, [[1.0, 0.0]]),
                   ("SwiftHohenberg", D, N, dict(reactivity=3.0, critical_number=1.0, polynomial_coefficients=(0.0, 0.0, 1.0, -1.0)), [[0.0], [2.0], [-1.0]]),
+                  # r - k^2 = 2 with a non-default critical number: (r - k^2) u + u^2 - u^3 = 0  <=>  u in {0, 2, -1}
+                  ("SwiftHohenberg", D, N, dict(reactivity=2.25, critical_number=0.5, polynomial_coefficients=(0.0, 0.0, 1.0, -1.0)), [[2.0], [-1.0]]),
+                  ("SwiftHohenberg", D, N, dict(reactivity=4.25, critical_number=1.5, polynomial_coefficients=(0.0, 0.0, 1.0, -1.0)), [[2.0]]),
                   ("CahnHilliard", D, N, {}, [[0.3], [-1.2]]),
                   ("Burgers", D, N, dict(single_channel=True), [[0.7]]),
                   ("KortewegDeVries", D, N, dict(single_channel=True), [[-0.4]]),
